@@ -15,6 +15,15 @@ JudgeRow(rec) ==
                           <<badU = {}, "upstream sign differs from Policy order">>,
                           <<badR = {}, "revision sign differs from Policy order">> >>)
 
+\* two texts: both well-formed, so both parse, and they compare as the versions they denote
+JudgeCmpText(rec) ==
+    LET ca == Classify(rec.in.ta)  cb == Classify(rec.in.tb) IN
+    IF ca.class # "wellformed" \/ cb.class # "wellformed" THEN V(TRUE, "unspecified", "")
+    ELSE LET want == Compare(ca.v, cb.v) IN
+         Checks(IF want = 0 THEN "equal" ELSE "strict",
+            << <<rec.ok_a /\ rec.ok_b, "well-formed version text rejected">>,
+               <<rec.sign = want /\ rec.sign_ba = 0 - want, "two version texts compare differently from the versions they denote">> >>)
+
 JudgeCmp(rec) ==
     LET a == VerOf(rec.in.a)  b == VerOf(rec.in.b)  want == Compare(a, b) IN
     Checks(IF want = 0 THEN "equal" ELSE "strict",
@@ -80,6 +89,7 @@ JudgeParse(rec) ==
 Judge(rec) ==
     CASE rec.ev = "row" -> JudgeRow(rec)
       [] rec.ev = "cmp" -> JudgeCmp(rec)
+      [] rec.ev = "cmp_text" -> JudgeCmpText(rec)
       [] rec.ev = "triple" -> JudgeTriple(rec)
       [] rec.ev = "sort" -> JudgeSort(rec)
       [] rec.ev = "parse" -> JudgeParse(rec)
